@@ -156,12 +156,30 @@ Definition sig_header (ofs size crc : Z) : res bytes :=
   do s <- le_res 4 (crc32 startdata);
   Ok (MAGIC ++ [0; 4] ++ s ++ startdata).
 
-(* HeaderStreamsInfo.write for the one folder of an encoded header: no packed CRC
-   (enable_digests = False, digestdefined empty), no folder CRC (UnpackInfo.write) *)
+(* UnpackInfo.write(file, with_crcs=True) -- the form HeaderStreamsInfo.write uses: after the unpack sizes
+   a CRC record for the folders whose digest is defined *)
+Definition folder_crc_defined (f : folder) : bool :=
+  f_digestdefined f && (match f_crc f with Some _ => true | None => false end).
+Definition write_unpackinfo_crcs (fs : list folder) : res bytes :=
+  do n <- wr_number (zlen fs);
+  do body <- wr_list write_folder fs;
+  do us <- wr_list (fun f => wr_list wr_number (f_unpacksizes f)) fs;
+  let defined := map folder_crc_defined fs in
+  do cr <- (if any_true defined then
+              do x <- wr_list (fun f => if folder_crc_defined f
+                                        then wr_fixed 4 (match f_crc f with Some c => c | None => 0 end)
+                                        else Ok []) fs;
+              Ok ([10] ++ wr_boolean defined true ++ x)
+            else Ok []);
+  Ok ([7; 11] ++ n ++ [0] ++ body ++ [12] ++ us ++ cr ++ [0]).
+
+(* HeaderStreamsInfo.write for the one folder of an encoded header: no packed CRC (enable_digests = False,
+   digestdefined empty), but the folder CRC = CRC-32 of the PLAIN header (Header._encode_header:
+   folder.crc = raw_crc; folder.digestdefined = True) -- stored in the clear, also when the header is encrypted *)
 Definition mk_bonds (ncoders : Z) : list (Z * Z) := map (fun i => (i + 1, i)) (range0 (ncoders - 1)).
-Definition hdr_descriptor (packpos : Z) (hcoders : list coder) (hpacksize hrawlen : Z) (hcrc : Z) : res bytes :=
-  do a <- write_packinfo false (mkPack packpos 1 [hpacksize] [] [hcrc]);
-  do b <- write_unpackinfo [mkFolder hcoders (mk_bonds (zlen hcoders)) [] [hrawlen] false None];
+Definition hdr_descriptor (packpos : Z) (hcoders : list coder) (hpacksize hrawlen : Z) (hpcrc hrawcrc : Z) : res bytes :=
+  do a <- write_packinfo false (mkPack packpos 1 [hpacksize] [] [hpcrc]);
+  do b <- write_unpackinfo_crcs [mkFolder hcoders (mk_bonds (zlen hcoders)) [] [hrawlen] true (Some hrawcrc)];
   Ok ([23] ++ a ++ b ++ [0]).
 
 (* mode 0: raw header; 1: encoded (LZMA2) header; 2: encrypted header.
@@ -174,13 +192,14 @@ Definition assemble (mode : Z) (h : header) (packed : bytes) (hcoders : list cod
     Ok (sg ++ packed ++ hb)
   else
     do hraw <- write_header true 0 h;
-    do desc <- hdr_descriptor (blen packed) hcoders (blen hpacked) (blen hraw) (crc32 hpacked);
+    do desc <- hdr_descriptor (blen packed) hcoders (blen hpacked) (blen hraw) (crc32 hpacked) (crc32 hraw);
     do sg <- sig_header (blen packed + blen hpacked) (blen desc) (crc32 desc);
     Ok (sg ++ packed ++ hpacked ++ desc).
 
-(* the part of an archive with an encoded/encrypted header that is NOT the two packed streams *)
-Definition plain_parts (packsize : Z) (hcoders : list coder) (hpacked : bytes) (hrawlen : Z) : res (bytes * bytes) :=
-  do desc <- hdr_descriptor packsize hcoders (blen hpacked) hrawlen (crc32 hpacked);
+(* the part of an archive with an encoded/encrypted header that is NOT the two packed streams:
+   a function of sizes, the header coder, the header ciphertext and the CRC-32 of the plain header *)
+Definition plain_parts (packsize : Z) (hcoders : list coder) (hpacked : bytes) (hrawlen hrawcrc : Z) : res (bytes * bytes) :=
+  do desc <- hdr_descriptor packsize hcoders (blen hpacked) hrawlen (crc32 hpacked) hrawcrc;
   do sg <- sig_header (packsize + blen hpacked) (blen desc) (crc32 desc);
   Ok (sg, desc).
 
@@ -480,15 +499,22 @@ Definition read_chain_folder (Db : bytes -> bytes) (Dz : bytes -> res bytes) (iv
   do s <- Dz (fst (cbc_dec Db iv packed));
   extract_members s sizes crcs.
 
-(* Header._read, ENCODED_HEADER branch with one AES folder: decrypt, cut to the unpack size,
-   (no CRC: digestdefined is False in what py7zr writes), then the header parser *)
+(* Header._read, ENCODED_HEADER branch with one AES folder: decrypt, cut to the unpack size, compare with the
+   folder CRC WHEN ONE IS STORED (py7zr now always stores it; a foreign writer may not: None), then the first
+   byte must be HEADER and the rest must parse *)
 Definition decoded_header (lim : Z) (buf : bytes) : res header :=
   match buf with
   | 1 :: r => do (h, _) <- parse_header_body lim r; Ok h     (* pid == HEADER *)
   | _ => Err EOther                                           (* TypeError("Unknown field") *)
   end.
-Definition open_encrypted_header (Db : bytes -> bytes) (lim : Z) (ivh hpacked : bytes) (hrawlen : Z) : res header :=
-  decoded_header lim (takeZ hrawlen (fst (cbc_dec Db ivh hpacked))).
+Definition checked_header (lim : Z) (fcrc : option Z) (buf : bytes) : res header :=
+  match fcrc with
+  | Some c => if crc32 buf =? c then decoded_header lim buf else Err EBad7z   (* Bad7zFile("invalid block data") *)
+  | None => decoded_header lim buf
+  end.
+Definition open_encrypted_header (Db : bytes -> bytes) (lim : Z) (ivh hpacked : bytes) (hrawlen : Z) (fcrc : option Z)
+  : res header :=
+  checked_header lim fcrc (takeZ hrawlen (fst (cbc_dec Db ivh hpacked))).
 
 (* ====================================================================== *)
 (* 8. Toy instances (runnable; also the satisfiability witnesses)          *)
@@ -542,10 +568,11 @@ Definition enc_dispatch (fn : Z) (a : tree) : tree :=
              (extract_members (of_bytes (tnth a 0)) (of_Zlist (tnth a 1)) (of_Zlist (tnth a 2)))
   (* FN 369 unpacksizes_prop : (methods_map usz) -> res sizes *)
   | 369 => t_res (fun l => TL (map TI l)) (unpacksizes_prop (map of_bool (of_TL (tnth a 0))) (of_Zlist (tnth a 1)))
-  (* FN 370 plain_parts : (packsize hcoders hpacked hrawlen) -> res (sig desc) *)
+  (* FN 370 plain_parts : (packsize hcoders hpacked hrawlen hrawcrc) -> res (sig desc) *)
   | 370 => t_res (fun '(s, d) => TL [t_bytes s; t_bytes d])
-             (plain_parts (of_TI (tnth a 0)) (map of_coder' (of_TL (tnth a 1))) (of_bytes (tnth a 2)) (of_TI (tnth a 3)))
-  (* FN 371 decoded_header_ok : (lim bytes) -> res () ; does the reader accept these bytes as a decoded header *)
-  | 371 => t_res t_unit (do _ <- decoded_header (of_TI (tnth a 0)) (of_bytes (tnth a 1)); Ok tt)
+             (plain_parts (of_TI (tnth a 0)) (map of_coder' (of_TL (tnth a 1))) (of_bytes (tnth a 2)) (of_TI (tnth a 3))
+                          (of_TI (tnth a 4)))
+  (* FN 371 checked_header_ok : (lim crc_opt bytes) -> res () ; does the reader accept these bytes as a decoded header *)
+  | 371 => t_res t_unit (do _ <- checked_header (of_TI (tnth a 0)) (of_opt of_TI (tnth a 1)) (of_bytes (tnth a 2)); Ok tt)
   | _ => TL [TI (-2)]
   end.
